@@ -335,6 +335,20 @@ SCHEMAS = [b'', b'http://x', b'http://y']
 FILTERS = ['*', '*', 'e', '61', '62', '61,62', '63', '61,63']
 
 
+def rand_pattern(rng):
+    """a random pattern of the modelled fragment: atoms (literal name character or '.'), each optionally starred"""
+    out = b''
+    for _ in range(rng.choice([0, 1, 2, 2, 3, 4, 6])):
+        out += bytes([rng.choice(b'aabbr.-/_A1')])
+        if rng.random() < 0.4:
+            out += b'*'
+    return out
+
+
+def rand_small_name(rng):
+    return bytes([rng.choice(b'abrA')]) + bytes(rng.choice(b'aabbr.-/_A1') for _ in range(rng.choice([0, 1, 2, 3, 5])))
+
+
 def rand_view(rng, meter, target=None):
     """a view; with a target instrument (type, name, unit) it is built to match it, then possibly perturbed in one selector"""
     it = rng.choice(ITYPES)
@@ -347,6 +361,8 @@ def rand_view(rng, meter, target=None):
         it = target[0]
         good = [p for p in PATTERNS if pattern_matches(p, target[1])]
         pat = rng.choice(good) if good else b'*'
+        if rng.random() < 0.3:
+            pat = rand_pattern(rng)          # exercises the backtracking matcher: a*ab, .*a.*, a*a*b, …
         unit = rng.choice([b'', target[2]])
         mn, mv, ms = rng.choice([b'', meter[0]]), rng.choice([b'', meter[1]]), rng.choice([b'', meter[2]])
         r = rng.random()
@@ -372,6 +388,9 @@ def gen_mv(rng, big):
         nv = rng.choice([0, 1, 1, 2, 2, 3, 4])
         ni = rng.choice([1, 1, 2, 3, 4])
         names = rng.sample(NAMES, ni)
+        if rng.random() < 0.35:
+            names = list({rand_small_name(rng) for _ in range(ni * 3)})[:ni]
+            ni = len(names)
         ops = [f'm {hx(meter[0])} {hx(meter[1])} {hx(meter[2])} {en}']
         instrs = []
         targets = []
